@@ -144,20 +144,52 @@ Definition final_answers (obs : list obs_step) : string :=
 Definition ev_default : event := EvDelPolicy "".
 Definition pick (evs : list event) (idx : list nat) : list event := map (fun i => nth i evs ev_default) idx.
 
+(* ------------------------------------------------------------------ the controller projection
+   observed per WAF operation: the sets index.conf lists, the files in the folder.
+   X: the model's folder equals the listed sets.  S (on the observations and the objects only): the
+   index lists exactly the files that exist; after a signature operation it lists exactly the sets
+   in force for the current objects; other operations leave it alone.
+   bit 2 as above (the F37 class seen through the controller), bit 16 = any other failure. *)
+Definition sig_in_force_keys (ob : objects) (wkeys : list string) : list string :=
+  filter (fun k => match spec_sig_answer (ob_sig ob) k with AOk => true | _ => false end) wkeys.
+
+Fixpoint ctl_check (fx : bool) (sf : state * list string) (ob : objects) (prev : list string)
+         (wkeys : list string) (evs : list event) (obs : list (list string * list string)) : bool * Z :=
+  match evs, obs with
+  | [], [] => (true, 0)
+  | ev :: evs', (ld, fl) :: obs' =>
+      let sf' := ctl_step fx sf ev in
+      let ob' := apply_event ob ev in
+      let b_files := if same_set ld fl then 0 else 16 in
+      let b_spec :=
+        match ev with
+        | EvUserSig _ _ => if same_set ld (sig_in_force_keys ob' wkeys) then 0 else 16
+        | EvDelUserSig k =>
+            if same_set ld (sig_in_force_keys ob' wkeys) then 0
+            else match lookup k (ob_sig ob) with None => 2 | Some _ => 16 end
+        | _ => if same_set ld prev then 0 else 16
+        end in
+      let '(a, b) := ctl_check fx sf' ob' ld wkeys evs' obs' in
+      (same_set (snd sf') ld && a, Z.lor (Z.lor b_files b_spec) b)
+  | _, _ => (false, 16)
+  end.
+
 (* one row per case:
    [id; model agrees; spec holds; nontrivial; spec failure bits; #runs; K1 holds; F21-free;
     then, over all steps of the first run, how often each answer class was observed:
     duplicate, missing, bad timestamp, failed validation (WAF); invalid, policy missing, policy
     invalid, log conf missing, log conf invalid (DoS); usable] *)
 Definition c19_case (id : Z) (fx : bool) (enabled : bool) (wkeys : list string) (pkeys : list (string * string))
-           (evs : list event) (runs : list (list nat * list obs_step)) : list Z :=
+           (evs : list event) (runs : list (list nat * list obs_step))
+           (ctl : list nat * list (list string * list string)) : list Z :=
   let st0 := init enabled in
+  let '(ctl_agree, ctl_bits) := ctl_check fx (st0, []) objs0 [] wkeys (pick evs (fst ctl)) (snd ctl) in
   let a0 := spec_answers acceptable enabled objs0 wkeys pkeys in
-  let agree := forallb (fun r => x_run fx st0 wkeys pkeys (pick evs (fst r)) (snd r)) runs in
+  let agree := forallb (fun r => x_run fx st0 wkeys pkeys (pick evs (fst r)) (snd r)) runs && ctl_agree in
   let bits := fold_left (fun b r => Z.lor b (s_run enabled objs0 a0 wkeys pkeys (pick evs (fst r)) (snd r))) runs 0 in
   let fin := match runs with r :: _ => final_answers (snd r) | [] => "" end in
   let same_final := forallb (fun r => String.eqb (final_answers (snd r)) fin) runs in
-  let bits := Z.lor bits (if same_final then 0 else 8) in
+  let bits := Z.lor (Z.lor bits (if same_final then 0 else 8)) ctl_bits in
   let all0 := match runs with r :: _ => flat_map (fun o : obs_step => list_ascii_of_string (snd o)) (snd r) | [] => [] end in
   let nontrivial := existsb (fun c => negb (Ascii.eqb c "N"%char) && negb (Ascii.eqb c "X"%char)) all0 in
   let cnt (c : ascii) := Z.of_nat (List.length (filter (Ascii.eqb c) all0)) in
